@@ -337,6 +337,13 @@ func c02Run(ctx *Ctx, c c02Case) {
 			out2 := evalWith(src2, input, nil)
 			ctx.Eval(c.Res+"|"+src2, nontrivial, "spelling:no-root")
 			c02Compare(ctx, src2, out2, want, viaChoiceOther, last)
+			// every identifier delimited, the root type included
+			if pi%5 == 1 {
+				src5 := renderStepsDelimited(typ, steps)
+				out5 := evalWith(src5, input, nil)
+				ctx.Eval(c.Res+"|"+src5, nontrivial, "spelling:delimited")
+				c02Compare(ctx, src5, out5, want, viaChoiceOther, last)
+			}
 			// mismatching root type → empty
 			if pi%4 == 0 {
 				src3 := renderSteps(other, steps)
